@@ -394,10 +394,12 @@ TEMPLATES = {
 TEMPLATE_NAMES = sorted(TEMPLATES)
 
 
-def mkfunc(name, params, ann, nout):
+def mkfunc(name, params, ann, nout, sig_defaults=()):
     ns: dict = {}
     body = "0" if nout == 1 else "(" + ", ".join(["0"] * nout) + ")"
-    exec(f"def {name}({', '.join(params)}):\n    return {body}\n", ns)  # noqa: S102
+    first = min((params.index(p) for p in sig_defaults), default=len(params))  # (defaults from the first chosen parameter on)
+    sig = ", ".join(p if k < first else f"{p}=0" for k, p in enumerate(params))
+    exec(f"def {name}({sig}):\n    return {body}\n", ns)  # noqa: S102
     fn = ns[name]
     fn.__annotations__ = dict(ann)
     return fn
@@ -445,7 +447,13 @@ def gen_pipeline(rng, tname):
         else:
             outs = [src[(i, o)] for o in f["outs"]]
             ann["return"] = NOANN if NOANN in outs else gen(tuple, *outs)
-        fs.append({**f, "ann": ann})
+        # a consuming parameter may carry a DEFAULT (in the signature, or through PipeFunc(defaults=...)): the producer's output
+        # still overrides it, so the edge is checked exactly as without the default
+        dflt = None
+        wired = [pn for pn in f["params"] if (i, pn) in par]
+        if wired and rng.random() < 0.3:
+            dflt = {"how": rng.choice(["signature", "option"]), "params": [rng.choice(wired)]}
+        fs.append({**f, "ann": ann, "dflt": dflt})
     return fs, ed
 
 
@@ -459,9 +467,11 @@ def construct(fs, validate, order="listed"):
             pfs = []
             for f in fs:
                 ann = {k: build(t) for k, t in f["ann"].items() if t != NOANN}
-                fn = mkfunc(f["name"], f["params"], ann, len(f["outs"]))
+                d = f.get("dflt")
+                fn = mkfunc(f["name"], f["params"], ann, len(f["outs"]), sig_defaults=(d["params"] if d and d["how"] == "signature" else ()))
                 on = f["outs"][0] if len(f["outs"]) == 1 else tuple(f["outs"])
-                pfs.append(P["PipeFunc"](fn, output_name=on, mapspec=f["mapspec"], renames=dict(f["renames"])))
+                kw = {"defaults": {f["renames"].get(pn, pn): 0 for pn in d["params"]}} if d and d["how"] == "option" else {}
+                pfs.append(P["PipeFunc"](fn, output_name=on, mapspec=f["mapspec"], renames=dict(f["renames"]), **kw))
             if order == "reversed":
                 pfs = pfs[::-1]
             if order == "add":
@@ -483,7 +493,8 @@ def describe(tname, fs, ed):
         ps = ", ".join(p if f["ann"][p] == NOANN else f"{p}: {show(f['ann'][p])}" for p in f["params"])
         r = "" if f["ann"]["return"] == NOANN else f" -> {show(f['ann']['return'])}"
         extra = "".join([f", mapspec={f['mapspec']!r}" if f["mapspec"] else "",
-                         f", renames={f['renames']!r}" if f["renames"] else ""])
+                         f", renames={f['renames']!r}" if f["renames"] else "",
+                         f", default({f['dflt']['how']}) for {f['dflt']['params']}" if f.get("dflt") else ""])
         on = f["outs"][0] if len(f["outs"]) == 1 else tuple(f["outs"])
         lines.append(f"PipeFunc(def {f['name']}({ps}){r}, output_name={on!r}{extra})")
     return {"template": tname, "functions": lines,
